@@ -78,6 +78,23 @@ func roundInt(v float64) int {
 	return int(x)
 }
 
+// roundM projects a measure onto the integers of the specification. On the lattices of this family every expected
+// value is below 2^15, so a NaN, an infinity or a value beyond 2^18 is itself the observation: it is reported as a
+// sentinel outside every expected value (small enough for TLC's 32-bit products), which the specification rejects.
+func roundM(v float64) int {
+	x := math.Round(v)
+	const lim = 1 << 18
+	switch {
+	case math.IsNaN(x):
+		return -lim - 7
+	case x >= lim:
+		return lim
+	case x <= -lim:
+		return -lim
+	}
+	return int(x)
+}
+
 func measureExec(c Case) Event {
 	if _, ok := c["kind"]; ok {
 		return sliverMeasure(c)
@@ -106,11 +123,11 @@ func measureExec(c Case) Event {
 			sgn = -1
 		}
 	}
-	ev["area2"] = roundInt(2 * g.Area() / (s * s))
-	ev["sarea2"] = roundInt(sgn * 2 * g.Area(geom.SignedArea) / (s * s))
+	ev["area2"] = roundM(2 * g.Area() / (s * s))
+	ev["sarea2"] = roundM(sgn * 2 * g.Area(geom.SignedArea) / (s * s))
 	ts, dx, dy := float64(c.num("ts")), float64(c.num("tdx")), float64(c.num("tdy"))
 	ev["ts"] = c.num("ts")
-	ev["area2t"] = roundInt(2 * g.Area(geom.WithTransform(func(p geom.XY) geom.XY {
+	ev["area2t"] = roundM(2 * g.Area(geom.WithTransform(func(p geom.XY) geom.XY {
 		return geom.XY{X: ts*p.X + dx, Y: ts*p.Y + dy}
 	})) / (s * s))
 	ev["lenn"] = int(math.Floor(g.Length() / s * 256))
@@ -119,7 +136,7 @@ func measureExec(c Case) Event {
 		if inv != nil {
 			xy = inv(xy)
 		}
-		ev["cx"], ev["cy"] = roundInt(xy.X*1024), roundInt(xy.Y*1024)
+		ev["cx"], ev["cy"] = roundM(xy.X*1024), roundM(xy.Y*1024)
 	} else {
 		ev["cempty"] = true
 	}
